@@ -169,6 +169,63 @@ def F_owner(ctx, server):
         ctx.ob(rule, hn + ".identity-match", found, where=cor.where(), expected="a branch on the Option<Identity> parameter (match / if let / let-else)", found=found, kind="cannot-establish")
 
 
+USER_FILTER_SOURCE = {
+    "username_exists": "PARAM",          # the name to look up is the helper's parameter
+    "login": "REQUEST",                  # the account named in the login form
+    "delete_account": "IDENTITY", "logout": "IDENTITY", "user_info": "IDENTITY", "update_user": "IDENTITY",
+}
+
+
+def F_userfilter(ctx, server):
+    rule = "C17.F-userfilter"
+    ctx.rule(rule, "every query / delete / replace on the users collection selects by exactly the key `username` (the stored field of User), with the session identity - in login: "
+                   "the submitted name, in username_exists: its parameter - as value: a filter on another key matches no document, so a password change is lost, an "
+                   "account is not deleted, an existence test always answers 'free'")
+    try:
+        ua = server.adt("user::User")
+        ufields = [f["name"] for f in ua["variants"][0]["fields"]]
+    except LookupError as e:
+        ctx.lost(rule, "User", str(e))
+        return
+    ctx.ob(rule, "User.username-field", "username" in ufields, expected="User has the field username", found=ufields)
+    n = 0
+    for (b, bb, t, m, e, d) in S.collection_calls(server, "user::User"):
+        if m not in ("find_one", "find", "delete_one", "delete_many", "replace_one", "update_one", "update_many", "find_one_and_replace", "find_one_and_update", "find_one_and_delete", "count_documents"):
+            continue
+        n += 1
+        name = S.fn_name(b)
+        arg = e[3][1] if len(e[3]) > 1 else None
+        ents = S.doc_entries(b, d, arg) if arg is not None else None
+        key = "%s/%s" % (name, m)
+        if ents is None:
+            ctx.cannot(rule, key, "a doc!{..} filter", b.where(t.get("loc")), flow.show(arg)[:160] if arg else None)
+            continue
+        okk = set(ents) == {"username"}
+        src = USER_FILTER_SOURCE.get(name)
+        okv = False
+        why = None
+        if okk:
+            v = ents["username"]
+            if src == "IDENTITY":
+                name_, outer, cor, roles = handler_ctx(server, b)
+                leaves = S.identity_payload(v, roles)
+                okv = bool(leaves) and all(x == "IDENTITY" for x in leaves)
+                why = leaves
+            elif src == "REQUEST":
+                name_, outer, cor, roles = handler_ctx(server, b)
+                rs = S.role_sources(v, roles)
+                okv = rs == {"REQUEST"} and bool(flow.find(v, lambda n_: n_[0] in ("field", "upvar") and "username" in flow.show(n_)))
+                why = sorted(rs)
+            elif src == "PARAM":
+                okv = bool(flow.find(v, lambda n_: n_[0] in ("upvar", "param"))) and not flow.find(v, lambda n_: n_[0] == "const")
+                why = flow.show(v)[:80]
+            else:
+                why = "unreviewed site"
+        ctx.ob(rule, key, okk and okv, where=b.where(t.get("loc")), expected="{ \"username\": <%s> }" % (src or "?"), found="keys %s; value %s" % (sorted(ents), why),
+               kind="refuted" if src else "unreviewed")
+    ctx.floor(rule, "filtered calls on the users collection", n, 6)
+
+
 def F_cred(ctx, server):
     rule = "C17.F-cred"
     ctx.rule(rule, "User values reaching insert_one/replace_one: password None, or Some(h) with h assigned from to_string(expect(hash_password(_, payload.password.as_bytes(), &salt))) "
@@ -506,6 +563,7 @@ def check(ctx):
         server = ctx.load(cfg)
         F_owner(ctx, server)
         F_cred(ctx, server)
+        F_userfilter(ctx, server)
         P_login(ctx, server)
         P_delete(ctx, server)
         T_tasks(ctx, server)
